@@ -274,6 +274,10 @@ def gen_history(rnd: random.Random, flavor: dict) -> dict:
         moves.append({"name": "bare", "criteria": "bare", "verdicts": [rnd.random() < 0.6 for _ in range(5)],
                       "move": {"type": "bare", "kind": "disp", "results": [True, True, False]},
                       "probability": 1.0})
+    if driver != "MonteCarlo" and len(sc["atoms"]["numbers"]) > 0 and rnd.random() < flavor.get("default_cycles", 0.12):
+        # max_cycles is not handed over: the documented default (one cycle per atom present at construction) applies
+        params["max_cycles"] = len(sc["atoms"]["numbers"])
+        sc["omit"] = ["max_cycles"]
     # minimum counts (never over-committing)
     free = params["max_cycles"]
     for m in moves:
@@ -497,6 +501,7 @@ def shrink_mc(sc, signature, violation):
     if sc["params"].get("max_cycles", 1) > 1:
         c = copy.deepcopy(sc)
         c["params"]["max_cycles"] = 1
+        c.pop("omit", None)
         for e in c["moves"]:
             e.pop("minimum_count", None)
         yield c
